@@ -252,7 +252,7 @@ theorem applyTokens_eq (ts : List (List Char)) (pos : Position) (hist : List BB)
 
 /-! ## the `position` wrapper -/
 
-/-- the FEN string (already trimmed) and the move tokens of a `position` command, as `uci::position` cuts them. -/
+/-- the FEN string (already trimmed as `str::trim` does) and the move tokens of a `position` command, as `uci::position` cuts them. -/
 def positionArgs (toks : List (List Char)) : List Char × List (List Char) :=
   let (fen, rest) : List Char × List (List Char) :=
     match toks with
@@ -264,7 +264,7 @@ def positionArgs (toks : List (List Char)) : List Char × List (List Char) :=
         (fenToks.foldl (fun a b => a ++ b ++ [' ']) [], after)
       else ([], [])
     | [] => ([], [])
-  (((fen.dropWhile (· == ' ')).reverse.dropWhile (· == ' ')).reverse, rest)
+  (rustTrim fen, rest)
 
 theorem doPosition_eq (ar : Arith) (s : UState) (toks : List (List Char)) :
     doPosition ar s toks =
